@@ -74,7 +74,11 @@ pub fn one_case(ctx: &mut Ctx, rng: &mut Rng, cfg: &TypeCfg, mutate: bool) {
             "mutated": mutated,
         })
     };
-    let got = catch(|| IDLArgs::from_bytes_with_types(&bytes, &cenv, &cts));
+    // mutated messages can declare astronomically long vectors of zero-sized elements: unmetered decoding of
+    // those is unbounded by design, so every decode here runs under a quota far above any generated message
+    let mut quota = candid::DecoderConfig::new();
+    quota.set_decoding_quota(100_000_000);
+    let got = catch(|| IDLArgs::from_bytes_with_types_with_config(&bytes, &cenv, &cts, &quota));
     let outcome_class;
     match got {
         Err(p) => {
@@ -157,7 +161,7 @@ pub fn one_case(ctx: &mut Ctx, rng: &mut Rng, cfg: &TypeCfg, mutate: bool) {
     }
     // no expected types: the plain inverse of the wire format
     if !mutated || rng.chance(1, 2) {
-        let got = catch(|| IDLArgs::from_bytes(&bytes));
+        let got = catch(|| IDLArgs::from_bytes_with_config(&bytes, &quota));
         let d0 = decode(&bytes);
         match (d0, got) {
             (_, Err(p)) => ctx.violation(
